@@ -18,7 +18,8 @@ RULE = ("all frames 0 <= h, w <= 4 (thorough 7) x all doubled coordinates in -3.
         "arrays; one evaluation = one accessor call judged; distinct by (frame size, accessor, coordinate)")
 ASSUMPTIONS = ["the documented arrays horizontal[y, x] / vertical[y, x] (shapes (h+1, w) and (h, w+1)) define which variable sits on which segment"]
 REQUIRED = ["mframe.getitem", "mframe.getitem_outside", "mframe.cell_neighbors", "mframe.vertex_neighbors", "mframe.neighbors_outside",
-            "mframe.all_edges", "mframe.iter", "mframe.dual", "mframe.inner_dual", "mframe.from_grid_frame", "c14.zero_sized", "c14.loop_constraint_frames"]
+            "mframe.all_edges", "mframe.iter", "mframe.dual", "mframe.inner_dual", "mframe.from_grid_frame", "c14.zero_sized", "c14.loop_constraint_frames", "c14.supplied.horizontal",
+            "c14.supplied.vertical", "c14.supplied.horizontal+vertical"]
 
 
 def plan(tier):
@@ -27,11 +28,26 @@ def plan(tier):
 
 def exercise(ctx, st, s, h, w, supplied=False):
     if supplied:
-        hor = s.bool_array((h + 1, w))
-        ver = s.bool_array((h, w + 1))
-        fr = BoolGridFrame(s, h, w, horizontal=hor, vertical=ver)
-        if fr.horizontal is not hor or fr.vertical is not ver:
-            ctx.violation("frame:supplied-arrays-ignored", "constructor did not keep the supplied arrays", {"frame": [h, w]})
+        # supplied: True = both arrays, "h" / "v" = only one of them (the other is the frame's own)
+        hor = s.bool_array((h + 1, w)) if supplied in (True, "h") else None
+        ver = s.bool_array((h, w + 1)) if supplied in (True, "v") else None
+        kw = {k: v for k, v in (("horizontal", hor), ("vertical", ver)) if v is not None}
+        fr = BoolGridFrame(s, h, w, **kw)
+        if (hor is not None and fr.horizontal is not hor) or (ver is not None and fr.vertical is not ver):
+            ctx.violation("frame:supplied-arrays-ignored", f"constructor did not keep the supplied arrays ({sorted(kw)})", {"frame": [h, w]})
+        ctx.count("c14.supplied." + "+".join(sorted(kw)))
+        # the same for an inner frame of (h+1) x (w+1) cells
+        ih = s.bool_array((h, w + 1)) if supplied in (True, "h") else None
+        iv = s.bool_array((h + 1, w)) if supplied in (True, "v") else None
+        ikw = {k: v for k, v in (("horizontal", ih), ("vertical", iv)) if v is not None}
+        inn = BoolInnerGridFrame(s, h + 1, w + 1, **ikw)
+        if (ih is not None and inn.horizontal is not ih) or (iv is not None and inn.vertical is not iv):
+            ctx.violation("frame:inner-supplied-arrays-ignored", f"inner-frame constructor did not keep the supplied arrays ({sorted(ikw)})",
+                          {"inner": [h + 1, w + 1]})
+        else:
+            dd = inn.dual()
+            if dd.horizontal is not inn.vertical or dd.vertical is not inn.horizontal:
+                ctx.violation("frame:inner-dual-arrays", "dual() of an inner frame does not carry the frame's arrays", {"inner": [h + 1, w + 1]})
     else:
         fr = BoolGridFrame(s, h, w)
     if fr.horizontal.shape != (h + 1, w) or fr.vertical.shape != (h, w + 1) or fr.height != h or fr.width != w:
@@ -92,7 +108,7 @@ def run(ctx):
     k = 0
     for h in range(0, lim + 1):
         for w in range(0, lim + 1):
-            for supplied in (False, True):
+            for supplied in (False, True, "h", "v"):
                 k += 1
                 if ctx.mine(k):
                     exercise(ctx, st, s, h, w, supplied)
